@@ -22,34 +22,51 @@ if only:
     jobs = [j for j in jobs if j[0] in only]
 
 
-def one(job):
+def prep(job):
     name, d = job
     tmp = tempfile.mkdtemp(prefix="twin-")
+    subprocess.check_call("git -C /repo archive HEAD | tar -x -C %s" % tmp, shell=True)
+    r = subprocess.run(["git", "apply", os.path.join(d, "patch.diff")], cwd=tmp, capture_output=True, text=True)
+    if r.returncode:
+        return name, tmp, "patch does not apply"
+    env = dict(os.environ, PYTHONPATH=os.path.join(tmp, "modules"))
+    t = subprocess.run(["/venv/bin/python", "-m", "pytest", "-q", "-p", "no:cacheprovider", "test"], cwd=tmp, env=env, capture_output=True, text=True)
+    if t.returncode:
+        return name, tmp, "tests fail"
+    return name, tmp, "ok"
+
+
+def chk(task):
+    name, tmp, p = task
+    e2 = dict(os.environ, VERIF_REPO=tmp, VERIF_OUT=os.path.join(tmp, "_out_" + p), VERIF_NO_SELFTEST="1")
     try:
-        subprocess.check_call("git -C /repo archive HEAD | tar -x -C %s" % tmp, shell=True)
-        r = subprocess.run(["git", "apply", os.path.join(d, "patch.diff")], cwd=tmp, capture_output=True, text=True)
-        if r.returncode:
-            return name, "patch does not apply", {}
-        env = dict(os.environ, PYTHONPATH=os.path.join(tmp, "modules"))
-        t = subprocess.run(["/venv/bin/python", "-m", "pytest", "-q", "-p", "no:cacheprovider", "test"], cwd=tmp, env=env, capture_output=True, text=True)
-        if t.returncode:
-            return name, "tests fail", {}
+        r = subprocess.run(["/venv/bin/python", os.path.join(V, "sa", "check.py"), p], env=e2, capture_output=True, text=True, timeout=900)
+    except subprocess.TimeoutExpired:
+        return name, p, 124, ["timeout"]
+    det = [l.strip() for l in r.stdout.splitlines() if l.strip().startswith("[") or "ANALYSIS-ERROR" in l]
+    return name, p, r.returncode, det[:3]
+
+
+props = [p for p in built if not os.environ.get("TWIN_PROPS") or p in os.environ["TWIN_PROPS"].split(",")]
+with ThreadPoolExecutor(16) as ex:
+    trees = list(ex.map(prep, jobs))
+    try:
+        tasks = [(n, t, p) for n, t, st in trees if st == "ok" for p in props]
         res = {}
-        for p in built:
-            e2 = dict(os.environ, VERIF_REPO=tmp, VERIF_OUT=os.path.join(tmp, "_out"))
-            r = subprocess.run(["/venv/bin/python", os.path.join(V, "sa", "check.py"), p], env=e2, capture_output=True, text=True, timeout=900)
-            if r.returncode != 0:
-                det = [l.strip() for l in r.stdout.splitlines() if l.strip().startswith("[") or "ANALYSIS-ERROR" in l]
-                res[p] = (r.returncode, det[:3])
-        return name, "ok", res
+        for name, p, rc, det in ex.map(chk, tasks):
+            if rc != 0:
+                res.setdefault(name, {})[p] = (rc, det)
     finally:
-        shutil.rmtree(tmp, ignore_errors=True)
-
-
-with ThreadPoolExecutor(5) as ex:
-    for name, status, res in ex.map(one, jobs):
-        print(name, status, "ALL SILENT" if status == "ok" and not res else "")
-        for p, (rc, det) in res.items():
-            print("    %s rc=%d" % (p, rc))
-            for l in det:
-                print("        " + l[:300])
+        for _, t, _ in trees:
+            shutil.rmtree(t, ignore_errors=True)
+nsil = 0
+for name, t, st in trees:
+    r = res.get(name, {})
+    silent = st == "ok" and not r
+    nsil += silent
+    print(name, st, "ALL SILENT" if silent else "")
+    for p, (rc, det) in r.items():
+        print("    %s rc=%d" % (p, rc))
+        for l in det:
+            print("        " + l[:300])
+print("%d/%d twins silent" % (nsil, len(trees)))
